@@ -8,7 +8,7 @@ from . import types as T
 
 # ---------------------------------------------------------------- values
 class Adt:
-    __slots__ = ("ty", "variant", "fields")
+    __slots__ = ("ty", "variant", "fields", "__dict__")
 
     def __init__(self, ty, variant, fields):
         self.ty, self.variant, self.fields = ty, variant, list(fields)
@@ -268,12 +268,11 @@ class Ctx:
         return self.choose([cond, z3.Not(cond)], label) == 0
 
 
-def explore(prog, entry, make_args, world_factory=None, check=None, max_paths=5000, **kw):
-    """entry(ctx) -> result.  returns list of (ctx, outcome)"""
-    stack = [[]]
-    results = []
-    while stack:
-        prefix = stack.pop()
+def explore(prog, entry, make_args, world_factory=None, check=None, max_paths=5000, shard=None, **kw):
+    """depth-first exploration by re-execution with decision prefixes.  entry: MIR function key or python callable(ctx, *args).
+    shard=(i, k): all k workers first expand the decision tree breadth-first (identically) until there are >= 4k open
+    prefixes, then worker i continues with every k-th one.  returns list of (ctx, outcome)"""
+    def run_one(prefix):
         ctx = Ctx(prog, prefix, world_factory, **kw)
         try:
             args = make_args(ctx)
@@ -288,12 +287,34 @@ def explore(prog, entry, make_args, world_factory=None, check=None, max_paths=50
             except Abort as e:
                 out = ("abort", str(e))
         except PathInfeasible:
-            continue
-        results.append((ctx, out))
+            return None, None, []
+        alts = []
         for i in range(len(prefix), len(ctx.decisions)):
             ch, n, _ = ctx.decisions[i]
             for alt in range(ch + 1, n):
-                stack.append([d[0] for d in ctx.decisions[:i]] + [alt])
+                alts.append([d[0] for d in ctx.decisions[:i]] + [alt])
+        return ctx, out, alts
+
+    results = []
+    stack = [[]]
+    if shard is not None:
+        i, k = shard
+        frontier, seeded = [[]], []
+        while frontier and len(frontier) < 4 * k:
+            prefix = frontier.pop(0)
+            ctx, out, alts = run_one(prefix)
+            frontier.extend(alts)
+            if ctx is not None:
+                seeded.append((ctx, out))
+        results = seeded[i::k]
+        stack = frontier[i::k]
+    while stack:
+        prefix = stack.pop()
+        ctx, out, alts = run_one(prefix)
+        stack.extend(alts)
+        if ctx is None:
+            continue
+        results.append((ctx, out))
         if len(results) > max_paths:
             raise BoundExceeded("max_paths")
     return results
@@ -458,6 +479,7 @@ class Program:
         if ctx.depth > ctx.max_depth:
             raise BoundExceeded("call depth")
         saved = ctx.tyenv
+        saved_fn = getattr(ctx, "cur_fn", None)
         env = dict(tyenv) if tyenv is not None else {}
         if site is not None:
             self.bind_types(f, site, saved, env)
@@ -469,6 +491,7 @@ class Program:
         finally:
             ctx.depth -= 1
             ctx.tyenv = saved
+            ctx.cur_fn = saved_fn
 
     def bind_types(self, callee, site, caller_env, out):
         caller, term = site
@@ -542,6 +565,7 @@ class Program:
             blk = f.blocks[bb]
             for st in blk.stmts:
                 ctx.steps += 1
+                ctx.dest_ty = f.local_tys.get(st.place.local) if not st.place.proj else None
                 val = self.rvalue(ctx, f, st.rv, operand, place_ref)
                 place_ref(st.place).set(val)
             t = blk.term
@@ -683,14 +707,34 @@ class Program:
                 return Closure(t, [], getattr(ctx, "cur_fn", None), dict(ctx.tyenv))
             return FnItem(t)
         if c.endswith("::promoted[0]") or re.search(r"::promoted\[\d+\]$", c):
-            name = self.resolve_promoted(c)
+            name = self.resolve_promoted(c, getattr(ctx, "cur_fn", None))
             return self.call(ctx, name, [])
         if c.startswith("{alloc") or c.startswith("alloc"):
             raise Unsupported("alloc const " + c)
+        # named const item defined in one of the loaded crates (e.g. libcnb_data::sbom::SBOM_FORMATS)
+        last = strip_generics(c).split("::")[-1]
+        if re.fullmatch(r"[A-Z][A-Z0-9_]*", last):
+            hits = [k for k, fn in self.funcs.items() if fn.is_const and fn.name.split("::")[-1] == last]
+            if len(hits) == 1:
+                return self.call(ctx, hits[0], [], tyenv={})
+            if len(hits) > 1:
+                cur = getattr(ctx, "cur_fn", None) or ""
+                near = [k for k in hits if self.funcs[k].name == cur + "::" + last]
+                if len(near) == 1:
+                    return self.call(ctx, near[0], [], tyenv={})
+                if last in ("FIELDS", "VARIANTS"):
+                    return Opaque("serde-names", c)      # only used in serde error messages
+                raise Unsupported(f"ambiguous const {c}: {len(hits)} candidates")
         # unit-like enum variant / fn item
         return self.ctor(ctx, c, [], as_const=True)
 
-    def resolve_promoted(self, c):
+    def resolve_promoted(self, c, cur_fn=None):
+        tail = c[c.rindex("::promoted["):]
+        if cur_fn:
+            # a promoted constant belongs to the function being executed
+            hits = [k for k, f in self.funcs.items() if f.name == cur_fn + tail]
+            if len(hits) == 1:
+                return hits[0]
         key = re.sub(r"<'_>", "", strip_generics(c))
         for name in self.funcs:
             if name.endswith(c.split("::")[-1]):
@@ -706,6 +750,13 @@ class Program:
         p = re.sub(r"<'_>", "", p)
         segs = p.split("::")
         last = segs[-1]
+        if len(segs) >= 2 and segs[-2] == "__Field":
+            # serde-generated field identifier enum: __field0.. in declaration order, __ignore last
+            if last.startswith("__field"):
+                return Adt("__Field", last, args)
+            f = next((fn for fn in self.funcs.values() if fn.name == getattr(ctx, "cur_fn", None)), None)
+            ns = [int(x) for b in (f.blocks.values() if f else []) for st in b.stmts for x in re.findall(r"__Field::__field(\d+)", st.text)]
+            return Adt("__Field", f"__ignore#{(max(ns) + 1) if ns else 0}", args)
         if len(segs) >= 2 and segs[-2] in self.enum_variants and self._variants_for(segs[-2], last):
             return Adt(segs[-2], last, args)
         if as_const and not args:
@@ -725,6 +776,8 @@ class Program:
             v = deref(place_ref(rv[1]).get())
             if not isinstance(v, Adt):
                 raise Unsupported(f"discriminant of {v!r}")
+            if v.ty == "__Field":
+                return int(v.variant[len("__field"):]) if v.variant.startswith("__field") else int(v.variant.split("#")[1])
             vs = self._variants_for(v.ty, v.variant)
             if vs is None:
                 raise Unsupported("unknown enum " + v.ty)
@@ -741,10 +794,10 @@ class Program:
         if k == "closure":
             return Closure(rv[1], [operand(o) for _, o in rv[2]], f.name, dict(ctx.tyenv))
         if k == "cast":
-            return deref(operand(rv[1])) if rv[3].startswith("PointerCoercion") or rv[3] in ("Transmute", "PtrToPtr") else operand(rv[1])
+            return operand(rv[1])
         if k == "binop":
             a, b = deref(operand(rv[2])), deref(operand(rv[3]))
-            return self.binop(rv[1], a, b)
+            return self.binop(rv[1], a, b, getattr(ctx, "dest_ty", None))
         if k == "unop":
             a = deref(operand(rv[2]))
             if rv[1] == "Not":
@@ -754,14 +807,40 @@ class Program:
             raise Unsupported("unop " + rv[1])
         raise Unsupported("rvalue " + k)
 
-    def binop(self, op, a, b):
+    def binop(self, op, a, b, dest_ty=None):
         sym = is_sym(a) or is_sym(b)
+        if isinstance(a, str) and isinstance(b, str) and op in ("Eq", "Ne", "Lt", "Le", "Gt", "Ge"):
+            a, b = ord(a), ord(b)      # char comparison
+        if isinstance(a, bool) and isinstance(b, bool) and op in ("BitAnd", "BitOr", "BitXor"):
+            return {"BitAnd": a and b, "BitOr": a or b, "BitXor": a != b}[op]
+        if sym and op in ("BitAnd", "BitOr", "BitXor") and (z3.is_bool(a) if is_sym(a) else isinstance(a, bool)):
+            x = a if is_sym(a) else z3.BoolVal(a)
+            y = b if is_sym(b) else z3.BoolVal(b)
+            return {"BitAnd": z3.And(x, y), "BitOr": z3.Or(x, y), "BitXor": z3.Xor(x, y)}[op]
         table = {"Eq": lambda: a == b, "Ne": lambda: a != b, "Lt": lambda: a < b, "Le": lambda: a <= b,
                  "Gt": lambda: a > b, "Ge": lambda: a >= b, "Add": lambda: a + b, "Sub": lambda: a - b,
-                 "Mul": lambda: a * b}
+                 "Mul": lambda: a * b, "AddUnchecked": lambda: a + b, "SubUnchecked": lambda: a - b, "MulUnchecked": lambda: a * b}
         if op in table:
             return table[op]()
-        raise Unsupported("binop " + op)
+        if op in ("AddWithOverflow", "SubWithOverflow", "MulWithOverflow"):
+            r = {"Add": lambda: a + b, "Sub": lambda: a - b, "Mul": lambda: a * b}[op[:3]]()
+            ity = (dest_ty or "").strip("() ").split(",")[0].strip()
+            if ity not in INT_TYS:
+                raise Unsupported(f"checked arithmetic on type {dest_ty}")
+            bits = INT_TYS[ity]
+            lo, hi = (0, 2 ** bits) if ity.startswith("u") else (-2 ** (bits - 1), 2 ** (bits - 1))
+            ov = z3.Or(r < lo, r >= hi) if is_sym(r) else not (lo <= r < hi)
+            return Adt("tuple", None, [r, ov])
+        if not sym:
+            if op == "Div":
+                return int(a / b) if b else 0
+            if op == "Rem":
+                return a - b * int(a / b)
+            if op in ("BitAnd", "BitOr", "BitXor", "Shl", "Shr", "ShlUnchecked", "ShrUnchecked"):
+                return {"BitAnd": a & b, "BitOr": a | b, "BitXor": a ^ b, "Shl": a << b, "Shr": a >> b, "ShlUnchecked": a << b, "ShrUnchecked": a >> b}[op]
+            if op == "Cmp":
+                return Adt("Ordering", "Less" if a < b else ("Equal" if a == b else "Greater"), [])
+        raise Unsupported("binop " + op + (" (symbolic)" if sym else ""))
 
     def dispatch(self, ctx, f, callee, argv, term=None):
         key, selfty, gen = callee_key(callee)
